@@ -139,7 +139,71 @@ def exec_c02_concurrent(prop, desc):
 def gen_c04(seed, tier):
     faults = (seed % 3 == 0)
     desc, rng = base_desc(seed, tier, faults=faults, p_dep=0.35)
+    if seed % 17 == 8:
+        # a Plan and a modified copy of it (one more dependency), both run in one process, in either order: what
+        # each run needs is decided by ITS plan
+        desc, rng = base_desc(seed, tier, p_dep=0.3, out_modes=("node", "node", "struct"))
+        world = desc["world"]
+        ds = ref.deps_star(world)
+        need = set()
+        if world.get("output") is not None:
+            for r in ref.spec_refs(world["output"]):
+                need.add(r)
+                need |= ds[r]
+        nodes = ref.by_id(world)
+        extra = [i for i in nodes if i not in need and nodes[i]["kind"] == "call"]
+        targets = [i for i in need if nodes[i]["kind"] in ("call", "lit", "gather")]
+        pairs = [(z, y) for z in extra for y in targets if y not in ds[z] and z != y]
+        if pairs:
+            z, y = rng.choice(pairs)
+            desc["mode"] = "variant"
+            desc["variant_dep"] = [z, y]
+            desc["variant_first"] = rng.random() < 0.5
+            desc["ops"][0]["cfg"].update(max_errors=0, retry=None)
     return desc
+
+
+def exec_c04_variant(prop, desc):
+    """Run a plan and a copy of it that has one more dependency edge (both share their node objects)."""
+    import copy as _copy
+
+    import uberjob
+
+    world = desc["world"]
+    z, y = desc["variant_dep"]
+    world2 = _copy.deepcopy(world)
+    world2["late_deps"] = list(world2.get("late_deps", ())) + [[z, y]]
+    hist = machine.History(desc)
+    hist.init_sources()
+    op = desc["ops"][0]
+    holder = {}
+
+    def variant_runner(built, kwargs):
+        if "plan" not in holder:
+            holder["plan"] = built.plan.copy()
+            holder["plan"].add_dependency(built.nodes[z], built.nodes[y])
+        return uberjob.run(holder["plan"], **kwargs)
+
+    viol = []
+    order = ["variant", "base"] if desc.get("variant_first") else ["base", "variant"]
+    built = None
+    for idx, which in enumerate(order):
+        if which == "variant" and built is None:
+            from model.build import build
+            from simkit import shims
+
+            shims.install_node_hash(desc["sched"].get("salt", 0))
+            built = build(world)
+        rec = machine.run_op(hist, dict(op, cfg=dict(op["cfg"], capture_physical=False)), idx, built=built,
+                             runner=variant_runner if which == "variant" else None)
+        built = rec.built
+        v = O.o_once(rec, world2 if which == "variant" else world, hist)
+        for x in v:
+            x["msg"] = f"[{which} plan, run {idx + 1} of 2 in this process] " + x["msg"]
+        viol.extend(v)
+        if viol:
+            break
+    return result(desc, hist, viol)
 
 
 GEN = {"C01": gen_c01, "C02": gen_c02, "C04": gen_c04}
@@ -970,6 +1034,8 @@ def execute(prop, desc):  # noqa: F811
         return exec_direct(prop, desc)
     if prop in ("C01", "C02") and desc.get("mode") == "concurrent":
         return exec_c02_concurrent(prop, desc)
+    if prop == "C04" and desc.get("mode") == "variant":
+        return exec_c04_variant(prop, desc)
     return _execute_plain(prop, desc)
 
 
